@@ -175,7 +175,21 @@ fn lattice_strategy() -> BoxedStrategy<LatticeCase> {
     });
     let scale = prop_oneof![6 => Just(0i32), 1 => Just(-20i32), 1 => Just(-14i32), 1 => Just(-30i32), 1 => Just(14i32), 1 => -24i32..=16];
     let tol = prop_oneof![4 => Just(0.1f32), 1 => Just(1e-6f32), 1 => Just(1.0f32), 1 => Just(2.5f32), 1 => Just(20.0f32), 1 => 0.01f32..30.0];
-    (prop::collection::vec(sub, 1..=3), any::<bool>(), scale, tol).prop_map(|(subs, evenodd, scale_log2, tol)| LatticeCase { path: PathSpec { ops: subs.concat(), evenodd }, scale_log2, tol: Some(Fl(tol)) }).boxed()
+    // a lone axis-aligned rectangle as PathBuilder::rect writes it (M L L L Z), started at any corner and run in
+    // either direction, i.e. also with negative width or height: the shape a special-cased shortcut would target
+    let rect = (-6i32..=5, -6i32..=5, 1i32..=8, 1i32..=8, 0usize..4, any::<bool>()).prop_map(|(x, y, w, h, start, reverse)| {
+        let (x2, y2) = ((x + w).min(6), (y + h).min(6));
+        let mut cs = vec![(x, y), (x2, y), (x2, y2), (x, y2)];
+        if reverse {
+            cs.reverse();
+        }
+        cs.rotate_left(start);
+        let mut ops: Vec<POp> = cs.iter().enumerate().map(|(i, p)| if i == 0 { POp::M(p.0 as f32, p.1 as f32) } else { POp::L(p.0 as f32, p.1 as f32) }).collect();
+        ops.push(POp::Z);
+        vec![ops]
+    });
+    let subs = prop_oneof![7 => prop::collection::vec(sub, 1..=3), 1 => rect];
+    (subs, any::<bool>(), scale, tol).prop_map(|(subs, evenodd, scale_log2, tol)| LatticeCase { path: PathSpec { ops: subs.concat(), evenodd }, scale_log2, tol: Some(Fl(tol)) }).boxed()
 }
 
 // ---------------------------------------------------------------------------
